@@ -22,21 +22,26 @@ using gsref::Bytes;
 // exactly-sized heap copy (size 0 -> a 0-byte block: touching it at all is an ASan report)
 struct Exact
 {
-    uint8_t *p;
+    uint8_t *p, *blk;
     size_t n;
-    Exact(const uint8_t *src, size_t n_) : n(n_)
+    // `align` 0..7: the copy starts `align` bytes behind a 16-byte boundary (ASan's malloc alignment) and still ENDS at the
+    // end of the block, so reading past either the word boundary in front of it or its last byte is visible
+    Exact(const uint8_t *src, size_t n_, int align = 0) : n(n_)
     {
-        p = (uint8_t *)malloc(n);
+        blk = (uint8_t *)malloc(n + (size_t)align);
+        p = blk + align;
+        if (align)
+            memset(blk, 0xD7, (size_t)align);
         if (n)
             memcpy(p, src, n);
     }
     explicit Exact(size_t n_) : n(n_)
     {
-        p = (uint8_t *)malloc(n);
+        p = blk = (uint8_t *)malloc(n);
         if (n)
             memset(p, 0xEE, n);
     }
-    ~Exact() { free(p); }
+    ~Exact() { free(blk); }
     Exact(const Exact &) = delete;
     Exact &operator=(const Exact &) = delete;
 };
@@ -67,6 +72,7 @@ struct Ctx
     std::vector<Bytes> frames_ok; // frames that already went through every oracle for this payload
     uint64_t encodes = 0, oracle_runs = 0;
     Bytes scratch;
+    int align = 0; // misalignment (0..7) of every input block handed to the encoders
 };
 
 static std::string sig(const Ctx &c, int entry, const char *kind)
@@ -193,7 +199,7 @@ static void run_entry(Ctx &c, int entry, const std::vector<Piece> &ps, bool null
     f.clear();
     if (entry == gs::RAW || entry == gs::VEC)
     {
-        Exact in(p.data(), n);
+        Exact in(p.data(), n, c.align);
         if (entry == gs::RAW)
         {
             Exact out(2 * n + 4);
@@ -214,7 +220,7 @@ static void run_entry(Ctx &c, int entry, const std::vector<Piece> &ps, bool null
             mc::crash_context("C04.harness");
         }
         if (memcmp(in.p, p.data(), n) != 0)
-            mc::violation(sig(c, entry, "input_modified"), "payload=%s", gsref::hex(p).c_str());
+            mc::violation(sig(c, entry, "input_modified.payload_bytes"), "payload=%s", gsref::hex(p).c_str());
     }
     else
     {
@@ -245,23 +251,46 @@ static void run_entry(Ctx &c, int entry, const std::vector<Piece> &ps, bool null
                 v.iov_base = nullptr;
             else
             {
-                uint8_t *b = (uint8_t *)malloc(q.len);
+                uint8_t *b = (uint8_t *)malloc(q.len + (size_t)c.align);
                 if (q.len)
-                    memcpy(b, p.data() + q.off, q.len);
+                    memcpy(b + c.align, p.data() + q.off, q.len);
                 hold.b[hold.k++] = b;
-                v.iov_base = b;
+                v.iov_base = b + c.align;
             }
             v.iov_len = q.len;
             iov.v[iov.k++] = v;
         }
         // the iovec array itself is exactly sized too
         Exact arr((const uint8_t *)iov.data(), iov.size() * sizeof(struct iovec));
+        // the caller's inputs are read-only for an encoder: the iovec array and every piece must be unchanged afterwards
+        auto inputs_intact = [&]() {
+            if (iov.size() && memcmp(arr.p, iov.data(), iov.size() * sizeof(struct iovec)) != 0)
+            {
+                const struct iovec *now = (const struct iovec *)arr.p;
+                size_t k = 0;
+                while (k + 1 < iov.size() && now[k].iov_base == iov.v[k].iov_base && now[k].iov_len == iov.v[k].iov_len)
+                    k++;
+                mc::violation(sig(c, entry, "input_modified.iovec_array"),
+                              "payload=%s %s: after the call piece %zu has iov_len %zu (was %zu), iov_base moved by %ld", gsref::hex(p).c_str(),
+                              text(part).c_str(), k, now[k].iov_len, iov.v[k].iov_len,
+                              (long)((const char *)now[k].iov_base - (const char *)iov.v[k].iov_base));
+                return;
+            }
+            for (size_t k = 0; k < iov.size(); k++)
+                if (iov.v[k].iov_len && memcmp(iov.v[k].iov_base, p.data() + ps[k].off, iov.v[k].iov_len) != 0)
+                {
+                    mc::violation(sig(c, entry, "input_modified.payload_bytes"), "payload=%s %s: piece %zu changed", gsref::hex(p).c_str(),
+                                  text(part).c_str(), k);
+                    return;
+                }
+        };
         if (entry == gs::RAW_V)
         {
             Exact out(2 * n + 4);
             mc::crash_context("C04.%s.%s.memory.%s", gs::codec_name(c.codec), gs::entry_name(entry), c.cls);
             int ret = gs::encode_raw_v(c.codec, (struct iovec *)arr.p, iov.size(), out.p);
             mc::crash_context("C04.harness");
+            inputs_intact();
             if (ret < 0 || (size_t)ret > 2 * n + 4)
             {
                 mc::violation(sig(c, entry, "return_value"), "payload=%s %s returned %d", gsref::hex(p).c_str(), text(part).c_str(), ret);
@@ -274,6 +303,7 @@ static void run_entry(Ctx &c, int entry, const std::vector<Piece> &ps, bool null
             mc::crash_context("C04.%s.%s.memory.%s", gs::codec_name(c.codec), gs::entry_name(entry), c.cls);
             f = gs::encode_vec_v(c.codec, (struct iovec *)arr.p, iov.size());
             mc::crash_context("C04.harness");
+            inputs_intact();
         }
     }
     check_frame(c, entry, f, part);
@@ -345,17 +375,18 @@ enum Parts
     P_FEW = 2        // few_partitions (long payloads)
 };
 
-static void check_payload(int codec, const Bytes &p, int mode, int parts)
+static void check_payload(int codec, const Bytes &p, int mode, int parts, int align = 0)
 {
     Ctx c;
+    c.align = align;
     c.codec = codec;
     c.M = gsref::golden(codec);
     c.payload = &p;
     c.cls = input_class(c.M, p);
-    mc::describe("codec=%s payload=%s (%zu bytes, %s) entry group=%s", gs::codec_name(codec),
+    mc::describe("codec=%s payload=%s (%zu bytes, %s) entry group=%s input misalignment=%d", gs::codec_name(codec),
                  p.size() <= 32 ? gsref::hex(p).c_str() : (gsref::hex(Bytes(p.begin(), p.begin() + 16)) + "...").c_str(), p.size(), c.cls,
-                 mode == M_RAW ? "raw buffers" : mode == M_VEC ? "vector gstuffing(buffer)" : "vector gstuffing_v");
-    if (strcmp(c.cls, "plain") != 0 && strcmp(c.cls, "empty") != 0)
+                 mode == M_RAW ? "raw buffers" : mode == M_VEC ? "vector gstuffing(buffer)" : "vector gstuffing_v", align);
+    if (align || (strcmp(c.cls, "plain") != 0 && strcmp(c.cls, "empty") != 0))
         mc::nontrivial();
     if (mode == M_RAW)
     {
@@ -574,6 +605,20 @@ MC_INIT
                 p.push_back((uint8_t)b1);
             int mode = mc::choose(nmodes(codec));
             check_payload(codec, p, mode, P_ALL_EMPTY);
+        });
+        // (d) every length 0..12 (thorough 0..24) at every misalignment 0..7: each input block (whole payload, every iovec
+        //     piece) starts `align` bytes behind a 16-byte boundary and ends exactly at the end of its heap block
+        mc::add_check(mc::fmt("alignment_x_length.%s", gs::codec_name(codec)), [codec] {
+            int maxlen = mc::thorough() ? 24 : 12;
+            int first = mc::choose(8 * (maxlen + 1));
+            int align = first % 8, n = first / 8;
+            int pattern = mc::choose(3);
+            gs::Markers M = gsref::golden(codec);
+            Bytes p;
+            for (int i = 0; i < n; i++)
+                p.push_back(pattern == 0 ? (uint8_t)(i * 37 + 1) : pattern == 1 ? (uint8_t)'a' : (i % 3 == 0 ? M.start : i % 3 == 1 ? M.stub : M.stop));
+            int mode = mc::choose(nmodes(codec));
+            check_payload(codec, p, mode, n <= 5 ? P_ALL : P_FEW, align);
         });
         // (c) long payloads, 253..300 bytes: lengths, frame lengths and receiver capacities (n+2, n+9) cross 255/256,
         //     where a narrowed length or capacity field would wrap
